@@ -87,6 +87,10 @@ def Arg.truthy [DecidableEq α] [OfNat α 0] (a : Arg α) : Option Bool :=
 def init [Mul α] (weights : List α) (a : Arg α) : Option (Fit α) :=
   if a.len > 0 then setValues weights a.items else some ⟨[]⟩
 
+/-- `ConstrainedFitness.__init__(self, values, constraint_violation)`: the base constructor, then the attribute. -/
+def cinit [Mul α] (weights : List α) (a : Arg α) (cv : Option (List Int)) : Option (CFit α) :=
+  (init weights a).map fun f => ⟨f.wvalues, cv⟩
+
 /-- The tuple that `__str__` / `__repr__` print: `self.values if self.valid else tuple()`. -/
 def strValues [Div α] (weights : List α) (f : Fit α) : List α :=
   if valid f then getValues weights f else []
